@@ -138,6 +138,23 @@ def run_check(pid, tier, seed, procs, t0):
                 if o["verdict"] == "refuted" and o["kind"] != "finding" and v2.get(o["name"]) and all(v == "proved" for v in v2[o["name"]]):
                     o["verdict"] = "proved"
                     o["note"] = (o.get("note") or "") + " | unstable: refuted in the parallel run, discharged when verified alone"
+    # ---- the same for an obligation left undecided by a timeout: slow queries are the unstable ones and the parallel run
+    #      competes for the cores with fifteen other solver processes; such a target is verified once more, alone, with
+    #      three times the budget.  Only a proof changes the verdict (an obligation undecided twice stays undecided).
+    slow = [r["target"] for r in results if r["status"] == "ok" and any(o["verdict"] in ("unknown", None) and o["kind"] != "finding" for o in r["obligations"])]
+    if slow:
+        second = {r["target"]: r for r in verify_many(slow, timeout_ms * 3, cross, procs=1)}
+        for r in results:
+            r2 = second.get(r["target"])
+            if r2 is None or r2["status"] != "ok":
+                continue
+            v2 = {}
+            for o in r2["obligations"]:
+                v2.setdefault(o["name"], []).append(o["verdict"])
+            for o in r["obligations"]:
+                if o["verdict"] in ("unknown", None) and o["kind"] != "finding" and v2.get(o["name"]) and all(v == "proved" for v in v2[o["name"]]):
+                    o["verdict"] = "proved"
+                    o["note"] = (o.get("note") or "") + " | unstable: undecided in the parallel run, discharged when verified alone with three times the budget"
     # ---- lemmas (formulas over contracts/spec only)
     lemma_obs = []
     if lemmas:
